@@ -29,6 +29,7 @@ TNext ==
     \/ Is("probe_udp") /\ P_ProbeUdp(E.from, E.fam, E.sa, E.sp, E.da, E.dp, SetOf(E.obs))
     \/ Is("probe_syn") /\ P_ProbeSyn(E.from, E.fam, E.sa, E.sp, E.da, E.dp, E.reply, SetOf(E.obs))
     \/ Is("data") /\ P_Data(E.c, SetOf(E.obs))
+    \/ Is("stall") /\ P_Stall(E.from, E.fam, E.sa, E.sp, E.da, E.dp, E.reply)
 
 TSpec == TInit /\ [][TNext]_<<pvars, l>>
 
